@@ -6,6 +6,7 @@ import (
 	"fmt"
 	"go/token"
 	"go/types"
+	"os"
 	"sort"
 	"strconv"
 	"strings"
@@ -584,8 +585,126 @@ func (fc *FnCtx) call(x *ssa.Call) Val {
 	if common.IsInvoke() {
 		fc.nilCheck(fc.asTerm(args[0], common.Value.Type()), "method call on nil interface")
 	}
+	if os.Getenv("GOVC_DEBUG_INLINE") != "" && ci.contract == nil && ci.fn != nil {
+		fmt.Fprintf(os.Stderr, "candidate %s: inmodule=%v can=%v\n", ci.key, fc.w.fnByKey[ci.key] == ci.fn, fc.canInline(ci.fn))
+	}
+	if ci.contract == nil && ci.fn != nil && !common.IsInvoke() && fc.w.fnByKey[ci.key] == ci.fn && fc.canInline(ci.fn) {
+		return fc.inlineCall(ci.fn, args)
+	}
 	writes := fc.w.writesOfCall(common)
 	return fc.applyContract(ci, args, writes, x.Type())
+}
+
+// canInline: in-module function without a contract that is straight-line code (no loop, defer, go, recover, closure capture),
+// small, and not already being inlined.
+func (fc *FnCtx) canInline(fn *ssa.Function) bool {
+	if os.Getenv("GOVC_NOINLINE") != "" {
+		return false
+	}
+	if fn.Blocks == nil || fn.Recover != nil || len(fn.FreeVars) > 0 || len(fc.inlineStack) >= 4 || fn == fc.fn {
+		return false
+	}
+	for _, fr := range fc.inlineStack {
+		if fr.fn == fn {
+			return false
+		}
+	}
+	n := 0
+	for _, b := range fn.Blocks {
+		for _, s := range b.Succs {
+			if s.Dominates(b) {
+				return false // loop
+			}
+		}
+		for _, in := range b.Instrs {
+			n++
+			switch in.(type) {
+			case *ssa.Defer, *ssa.Go, *ssa.MakeClosure, *ssa.Select:
+				return false
+			}
+		}
+	}
+	return n <= 300
+}
+
+func (fc *FnCtx) inlineCall(fn *ssa.Function, args []Val) Val {
+	if len(args) != len(fn.Params) {
+		unsupported("inlining %s: %d arguments for %d parameters", shortFuncKey(fn), len(args), len(fn.Params))
+	}
+	if os.Getenv("GOVC_DEBUG_INLINE") != "" {
+		fmt.Fprintf(os.Stderr, "inlining %s into %s\n", shortFuncKey(fn), fc.key)
+	}
+	fr := &inlineFrame{fn: fn}
+	fc.inlineStack = append(fc.inlineStack, fr)
+	saveInstr := fc.curInstr
+	for i, p := range fn.Params {
+		fc.vals[p] = args[i]
+	}
+	// reverse postorder of the callee
+	seen := map[*ssa.BasicBlock]bool{}
+	var post []*ssa.BasicBlock
+	var dfs func(b *ssa.BasicBlock)
+	dfs = func(b *ssa.BasicBlock) {
+		seen[b] = true
+		for _, s := range b.Succs {
+			if !seen[s] {
+				dfs(s)
+			}
+		}
+		post = append(post, b)
+	}
+	dfs(fn.Blocks[0])
+	for i := len(post) - 1; i >= 0; i-- {
+		b := post[i]
+		delete(fc.outs, b)
+		if b == fn.Blocks[0] {
+			fc.blockWith(b, []edgeOut{{to: b, cond: fc.reach, st: fc.st}}, false)
+		} else {
+			fc.blockWith(b, nil, false)
+		}
+	}
+	fc.inlineStack = fc.inlineStack[:len(fc.inlineStack)-1]
+	fc.curInstr = saveInstr
+	if len(fr.rets) == 0 {
+		// every path of the callee panics: nothing after the call is reachable
+		fc.reach = "false"
+		res := fn.Signature.Results()
+		if res.Len() == 0 {
+			return nil
+		}
+		if res.Len() == 1 {
+			return fc.zeroVal(res.At(0).Type())
+		}
+		var tv TupleVal
+		for i := 0; i < res.Len(); i++ {
+			tv = append(tv, fc.zeroVal(res.At(i).Type()))
+		}
+		return tv
+	}
+	var ins []edgeOut
+	var conds []Term
+	for _, r := range fr.rets {
+		ins = append(ins, edgeOut{to: fn.Blocks[0], cond: r.cond, st: r.st})
+		conds = append(conds, r.cond)
+	}
+	st, r := fc.merge(fn.Blocks[0], ins)
+	fc.st, fc.reach = st, r
+	res := fn.Signature.Results()
+	if res.Len() == 0 {
+		return nil
+	}
+	var outs TupleVal
+	for i := 0; i < res.Len(); i++ {
+		var vs []Val
+		for _, rt := range fr.rets {
+			vs = append(vs, rt.vals[i])
+		}
+		outs = append(outs, fc.mergeVal("inl_"+sanitizeName(fn.Name()), res.At(i).Type(), vs, conds))
+	}
+	if res.Len() == 1 {
+		return outs[0]
+	}
+	return outs
 }
 
 func (fc *FnCtx) applyContract(ci *calleeInfo, args []Val, writes map[string]bool, resType types.Type) Val {
@@ -1148,4 +1267,21 @@ func (w *World) recursiveCall(caller, callee *ssa.Function) bool {
 		return false
 	}
 	return visit(callee)
+}
+
+// inlinedOnly: an unexported function without a contract that the generator inlines at its call sites is not verified on its
+// own (it has no precondition to be verified against); its obligations are generated at every call site instead.
+func (w *World) inlinedOnly(key string) bool {
+	if os.Getenv("GOVC_NOINLINE") != "" {
+		return false
+	}
+	if _, ok := w.cs.Funcs[key]; ok {
+		return false
+	}
+	fn := w.fnByKey[key]
+	if fn == nil || fn.Object() == nil || fn.Object().Exported() || fn.Name() == "init" || strings.HasPrefix(fn.Name(), "init#") {
+		return false
+	}
+	tmp := &FnCtx{w: w}
+	return tmp.canInline(fn)
 }
